@@ -203,7 +203,12 @@ def op_ckpt(scenario):
 
     solver.save = save
     try:
-        for k in sc.get("calls", []):
+        calls = list(sc.get("calls", []))
+        if sc.get("until") is not None:
+            # run up to a total iteration count (the restored iteration is only known here)
+            k = int(sc["until"]) - int(solver.iteration)
+            calls = [k] if k > 0 else []
+        for k in calls:
             st = solver.solve(int(k))
             log(f"solve-return {int(st.info.iteration)}")
             out["calls"].append(dict(limit=int(k), iteration=int(st.info.iteration)))
